@@ -130,6 +130,8 @@ class Acc(object):
         self.known_hits = {}
         self.excluded = {}
         self.inconclusive = 0
+        self.masked = []        # (finding-ish label, what, case): failing, but a recorded trigger fired and its model does not reproduce it
+        self.masked_count = {}
         self.extra = {}
         self.exhaustive = None
 
@@ -154,6 +156,10 @@ class Acc(object):
                 self.samples.append(sample if sample is not None else case)
         if v.status == "known":
             self.known_hits[v.finding] = self.known_hits.get(v.finding, 0) + 1
+        elif v.status == "masked":
+            self.masked_count[v.finding] = self.masked_count.get(v.finding, 0) + 1
+            if len(self.masked) < 12 and self.masked_count[v.finding] <= 2:
+                self.masked.append((v.finding, v.what, case))
         elif v.status == "fail":
             n = self.fail_buckets.get(v.bucket, 0)
             self.fail_buckets[v.bucket] = n + 1
@@ -176,6 +182,9 @@ class Acc(object):
         for k, n in o.excluded.items():
             self.excluded[k] = self.excluded.get(k, 0) + n
         self.inconclusive += o.inconclusive
+        self.masked.extend(o.masked)
+        for k, n in o.masked_count.items():
+            self.masked_count[k] = self.masked_count.get(k, 0) + n
         for k, val in o.extra.items():
             if isinstance(val, (int, float)):
                 self.extra[k] = self.extra.get(k, 0) + val
@@ -198,7 +207,19 @@ def _canon(x):
 # ---------------------------------------------------------------------------
 # JSON helpers (bytes and tuples survive a round trip; lone surrogates are fine in json)
 
+def _has_surrogate(s):
+    for ch in s:
+        if "\ud800" <= ch <= "\udfff":
+            return True
+    return False
+
+
 def to_json(x):
+    if isinstance(x, str):
+        # json would merge an adjacent high+low pair of lone surrogates into one astral character
+        if _has_surrogate(x):
+            return {"__codepoints__": [ord(c) for c in x]}
+        return x
     if isinstance(x, bytes):
         return {"__bytes__": x.hex()}
     if isinstance(x, tuple):
@@ -221,6 +242,8 @@ def from_json(x):
         if len(x) == 1:
             if "__bytes__" in x:
                 return bytes.fromhex(x["__bytes__"])
+            if "__codepoints__" in x:
+                return "".join(chr(c) for c in x["__codepoints__"])
             if "__tuple__" in x:
                 return tuple(from_json(i) for i in x["__tuple__"])
             if "__set__" in x:
@@ -301,6 +324,28 @@ def ddmin_seq(seq, test, budget):
     if len(seq) == 0:
         seq = empty
     return seq, evals
+
+
+def _minimise_away(mod, case, budget=500):
+    fields = getattr(mod, "SHRINK", {})
+    cur = dict(case)
+
+    def bad(c):
+        try:
+            return mod.check_case(c).status in ("fail", "masked")
+        except Exception:
+            return False
+    for f in fields:
+        if cur.get(f) is None:
+            continue
+
+        def t(cand, f=f):
+            c2 = dict(cur)
+            c2[f] = cand
+            return bad(c2)
+        new, _ = ddmin_seq(cur[f], t, budget)
+        cur[f] = new
+    return cur
 
 
 def shrink_case(mod, case, bucket, budget=1500):
@@ -501,6 +546,23 @@ def run_property(pid, tier, seed, jobs=None):
         seen[bucket] = True
         violations.append((bucket, what, small, ok))
 
+    # 3b. minimise-away (DESIGN 1, mechanism 3): a failing case in which a recorded trigger fired but whose
+    # model does not reproduce the result is reduced under "still fails or is still masked"; if the 1-minimal
+    # case fails without any recorded trigger it is a new violation, otherwise it stays counted as masked.
+    n_min = 0
+    for label, what, case in total.masked:
+        if n_min >= 10:
+            break
+        n_min += 1
+        try:
+            small = _minimise_away(mod, case)
+        except Exception:
+            continue
+        v = mod.check_case(small)
+        if v.status == "fail" and v.bucket not in seen:
+            seen[v.bucket] = True
+            violations.append((v.bucket, v.what, small, True))
+
     # 4. report
     vcount = 0
     emitted = set()
@@ -523,6 +585,7 @@ def run_property(pid, tier, seed, jobs=None):
         "excluded": total.excluded,
         "known_hits": total.known_hits,
         "inconclusive": total.inconclusive,
+        "known_masked": total.masked_count,
         "shards": len(descs),
         "pinned_replays_run": n_replayed,
         "failure_buckets": total.fail_buckets,
